@@ -256,6 +256,7 @@ func checkArrayAlgebra(p *Program, r *Report, prop string) {
 	checkAccessorSiblings(p, r, only)
 	checkSeriesAxisSelectors(p, r, only)
 	checkViewsOwnStrides(p, r, prop)
+	checkRequestedExtents(p, r, prop)
 	r.Rule("R01.5", "views are live: a view object holds nothing but strides and the shared storage (no second element buffer), and what Unroll hands out is the storage itself or gathered in the same call, never a copy cached in the view")
 	// R01.2 / R01.3
 	ats := arrayTypes(p)
@@ -1221,4 +1222,53 @@ func checkViewsOwnStrides(p *Program, r *Report, prop string) {
 		floor = 15
 	}
 	r.Floor("R01.9", "stride-vector stores", n, floor)
+}
+
+// checkRequestedExtents (R01.10): a slice has the extents it was asked for. Where the slicing primitive stores the
+// Dims of the view it fills in (a struct handed in as a parameter), the value is one of its own slice parameters
+// (or a copy of one): for in-bounds requests — all the property quantifies over — no adjustment of the extents is
+// ever right, and a "hardening" that recomputes them changes which elements the view has.
+func checkRequestedExtents(p *Program, r *Report, prop string) {
+	r.Rule("R01.10", "a slice has the extents it was asked for: in the slicing primitive (a method that fills in a view struct passed as a parameter) the value stored into the view's Dims is the function's own `dims` slice parameter or a copy of it, never a vector computed from it")
+	n := 0
+	for _, fn := range dataFuncs(p) {
+		if prop == "C03" && relPkg(fnPkg(fn).Path()) != "data/cdata" {
+			if fn.Signature.Recv() == nil || !isCommonStruct(fn.Signature.Recv().Type()) {
+				continue
+			}
+		}
+		k := 0
+		for _, ev := range commonFieldStores(fn) {
+			if ev.field != "Dims" || ev.val == nil {
+				continue
+			}
+			// the struct being filled in is a parameter other than the receiver
+			isDestParam := false
+			for i, q := range fn.Params {
+				if (i > 0 || fn.Signature.Recv() == nil) && objOf(ev.base) == ssa.Value(q) && isCommonStruct(q.Type()) {
+					isDestParam = true
+				}
+			}
+			if !isDestParam {
+				continue
+			}
+			k++
+			n++
+			key := fmt.Sprintf("%s:extents#%d", FuncKey(fn), k)
+			v := ev.val
+			// a copy of a parameter: append([]int(nil), dims...)
+			if c, ok := origin1(v).(*ssa.Call); ok {
+				if bi, isB := c.Common().Value.(*ssa.Builtin); isB && bi.Name() == "append" && len(c.Common().Args) == 2 {
+					v = c.Common().Args[1]
+				}
+			}
+			if len(sliceParamsOf(v, 0)) > 0 {
+				r.OK("R01.10", fmt.Sprintf("%s: the view's Dims is the requested extent vector", FuncKey(fn)))
+			} else {
+				r.Fail("R01.10", key, p.Pos(ev.at.Pos()), "the extents stored for the new view are not the ones requested but a vector computed from them: for an in-bounds request the view must have exactly the requested extents — anything else drops or adds elements (a stepped slice reaching into the last partial stride loses its final element)")
+			}
+		}
+	}
+	floor := 9
+	r.Floor("R01.10", "slicing primitives storing the extents of a view", n, floor)
 }
